@@ -47,8 +47,8 @@ def readV1S (bs : Bytes) : Res (Header × Bytes) :=
       if crlfAt bs 30 then parseKeep (bs.take 30) (bs.drop 32) else lineS bs 75 32
     else .err .v1Short
   else if (bs.take 10).drop 6 == sTCP6 then
-    if 24 ≤ bs.length then
-      if crlfAt bs 22 then parseKeep (bs.take 22) (bs.drop 24) else lineS bs 83 24
+    if 22 ≤ bs.length then
+      if crlfAt bs 20 then parseKeep (bs.take 20) (bs.drop 22) else lineS bs 85 22
     else .err .v1Short
   else .err .v1Proto
 
@@ -141,24 +141,24 @@ theorem readV1Header_eq (bs : Bytes) (h13 : 13 ≤ bs.length) :
       · rw [if_neg h32, if_neg h32]; rfl
     · split
       · rw [readFullInto_mkBuf _ h13 (by omega) (by omega)]
-        by_cases h24 : 24 ≤ bs.length
-        · rw [if_pos h24, if_pos h24]
+        by_cases h22 : 22 ≤ bs.length
+        · rw [if_pos h22, if_pos h22]
           simp only [bind_ok]
-          rw [sl_mkBuf h24 (by omega) (by omega) (by omega)]
+          rw [sl_mkBuf h22 (by omega) (by omega) (by omega)]
           simp only [bind_ok]
-          have e1 : (bs.take 24).drop 22 = pairAt bs 22 := rfl
+          have e1 : (bs.take 22).drop 20 = pairAt bs 20 := rfl
           rw [e1]
-          by_cases hc : crlfAt bs 22
-          · have hc' : (pairAt bs 22 == crlf) = true := hc
+          by_cases hc : crlfAt bs 20
+          · have hc' : (pairAt bs 20 == crlf) = true := hc
             rw [if_pos hc, if_pos hc']
-            rw [sl_mkBuf h24 (by omega) (by omega) (by omega)]
+            rw [sl_mkBuf h22 (by omega) (by omega) (by omega)]
             simp only [bind_ok, List.drop_zero]
             exact parseBind _ _
-          · have hc' : ¬ (pairAt bs 22 == crlf) = true := hc
+          · have hc' : ¬ (pairAt bs 20 == crlf) = true := hc
             rw [if_neg hc, if_neg hc']
-            rw [readUntilCRLF_eq bs 24 (by omega) (by omega) h24]
+            rw [readUntilCRLF_eq bs 22 (by omega) (by omega) h22]
             exact lineBind bs _ _
-        · rw [if_neg h24, if_neg h24]; rfl
+        · rw [if_neg h22, if_neg h22]; rfl
       · rfl
 
 /-- `readV2Header` on the whole input (`13 ≤ bs.length`) -/
